@@ -12,11 +12,13 @@ RULE = ("contracts of 3-6 blocks with a hostile-constant profile (operands 0 and
         "shifts/SIGNEXTEND/BYTE, NOT NOT, ISZERO chains of length 2-9, 17+ live values, 30-60 instruction blocks, rule-catalogue "
         "templates) x option sets; each contract runs through the real CLI entry in a FORKED child with RLIMIT_CPU = 20 s + 0.5 s per "
         "instruction and RLIMIT_AS = 4 GB: violation if an exception escapes, the child is killed by a limit (re-run alone before it is "
-        "reported), or no output file results; containment by fault injection: the front-end is made to raise for one chosen block, "
-        "the output must exist and differ from the fault-free output only at that block, which must equal its input; "
+        "reported), or no output file results; containment by fault enumeration: one of 24 functions of the per-block pipeline "
+        "(entry of the analysis, 15 functions inside it, greedy search, re-verification, rebuild of the assembly) is made to raise on "
+        "its 1st/2nd/3rd/6th call while one chosen block is processed; the output must exist and differ from the fault-free output "
+        "only at that block, which must be its input, the fault-free result (failure absorbed) or at least equivalent to its input; "
         "non-trivial = contract containing >= 1 hostile constant/idiom or an injected fault; distinct by (contract, options)")
 ASSUME = ["budgets are CPU time (not wall time), >= 1000x the measured median of 10 ms per block",
-          "fault injection wraps sfs_generator.ir_block.evm2rbr_compiler inside the harness child (no source change)"]
+          "fault injection wraps functions of the tool inside the harness process (no source change); the wrapped functions are put back after every run"]
 HOSTILE_CONSTS = [0, 1, B - 1, 1 << 255, 256, 255, 2]
 HOSTILE_OPS = ["DIV", "SDIV", "MOD", "SMOD", "EXP", "SHL", "SHR", "SAR", "SIGNEXTEND", "BYTE", "ADDMOD", "MULMOD"]
 
@@ -24,6 +26,8 @@ HOSTILE_OPS = ["DIV", "SDIV", "MOD", "SMOD", "EXP", "SHL", "SHR", "SAR", "SIGNEX
 @st.composite
 def hostile_block(draw):
     kind = draw(st.integers(0, 9))
+    if draw(st.integers(0, 24)) == 0:
+        return draw(gen.failing_block())        # analysis fails on the pinned tree (contained): the rest of the contract must not suffer
     if kind == 9 and draw(st.integers(0, 3)) == 0:
         # a term DAG with heavy sharing: x, 2x, 4x, ... (every level reuses the previous one twice)
         # depth capped at 13: from ~16 on the analysis exceeds every budget (known finding recursion:search_for_value_aux,
@@ -68,24 +72,81 @@ def hostile_block(draw):
     return draw(gen.block(max_len=20, profile=gen.MEM_PROFILE))
 
 
-def run_with_fault(argv, inputs, want, fault_block):
-    """(child) like hermetic.gasol_main but the front-end raises for one block name"""
+# fault sites: (module, function) -- the function raises on its n-th call made while the target block is in the per-block
+# pipeline (analysis, search, rebuild, re-verification).  Site 0 is the entry of the analysis itself.
+FAULT_SITES = [("sfs_generator.ir_block", "evm2rbr_compiler")] + \
+    [("sfs_generator.gasol_optimization", f) for f in (
+        "search_for_value_aux", "rebuild_expression", "generate_json", "compute_vars", "generate_dependences", "simplify_dependences",
+        "apply_transform", "translate_subblock", "is_already_defined", "get_involved_vars", "generate_storage_info", "update_unary_func",
+        "apply_all_simp_rules", "apply_all_comparison", "generate_subblocks")] + \
+    [("greedy.block_generation", "greedy_from_json"), ("greedy.block_generation", "needed_nostores"), ("greedy.block_generation", "sort_with_deps"),
+     ("verification.sfs_verify", "verify_block_from_list_of_sfs"), ("verification.sfs_verify", "compare_variables"),
+     ("verification.sfs_verify", "compare_dependences"), ("solution_generation.optimize_from_sub_blocks", "rebuild_optimized_asm_block"),
+     ("solution_generation.ids2asm", "asm_from_ids")]
+
+
+def run_with_fault(argv, inputs, want, fault_block, site=0, nth=1):
+    """(child) like hermetic.gasol_main, but FAULT_SITES[site] raises on its nth call while block fault_block is processed"""
+    import importlib
+    import sys as _sys
     import sfs_generator.ir_block as ir_block
     import gasol_asm
-    orig = ir_block.evm2rbr_compiler
     hits = []
+    cur = [None]
+    patched = []
 
-    def wrapped(*a, **kw):
-        name = kw.get("block_name", "")
-        if name == fault_block or name == "alreadyOptimized_" + fault_block:
-            hits.append(name)
-            raise Exception("injected analysis failure", 4)
-        return orig(*a, **kw)
-    ir_block.evm2rbr_compiler = wrapped
+    def patch_everywhere(obj, repl):
+        for m in list(_sys.modules.values()):
+            f = getattr(m, "__file__", None)
+            if not f or not f.startswith(hermetic.REPO):
+                continue
+            for k, v in list(vars(m).items()):
+                if v is obj:
+                    setattr(m, k, repl)
+                    patched.append((m, k, obj))
+
+    def names(n):
+        return n in (fault_block, "alreadyOptimized_" + fault_block)
+
+    # 1. track the block the pipeline is working on
+    o_opt, o_cmp, o_rbr = gasol_asm.optimize_asm_block_asm_format, gasol_asm.compare_asm_block_asm_format, ir_block.evm2rbr_compiler
+
+    def t_opt(block, *a, **kw):
+        old, cur[0] = cur[0], getattr(block, "block_name", None)
+        try:
+            return o_opt(block, *a, **kw)
+        finally:
+            cur[0] = old
+
+    def t_cmp(old_block, *a, **kw):
+        old, cur[0] = cur[0], getattr(old_block, "block_name", None)
+        try:
+            return o_cmp(old_block, *a, **kw)
+        finally:
+            cur[0] = old
+    patch_everywhere(o_opt, t_opt)
+    patch_everywhere(o_cmp, t_cmp)
+    # 2. the faulty site
+    mod, fname = FAULT_SITES[site % len(FAULT_SITES)]
+    target = getattr(importlib.import_module(mod), fname)
+    count = [0]
+
+    def faulty(*a, **kw):
+        active = names(cur[0]) if cur[0] is not None else False
+        if fname == "evm2rbr_compiler":
+            active = names(kw.get("block_name", ""))
+        if active:
+            count[0] += 1
+            if count[0] == nth:
+                hits.append(fname)
+                raise Exception("injected failure in %s" % fname, 4)
+        return target(*a, **kw)
+    patch_everywhere(target, faulty)
     try:
         res = hermetic.gasol_main(argv, inputs, want)
     finally:
-        ir_block.evm2rbr_compiler = orig
+        for m, k, obj in patched:
+            setattr(m, k, obj)
     res["fault_hits"] = hits
     return res
 
@@ -95,7 +156,7 @@ def limits(blocks):
     return 20 + 0.5 * n
 
 
-def run_doc(doc, argv, cpu, fault=None, forked=False):
+def run_doc(doc, argv, cpu, fault=None, forked=False, site=0, nth=1):
     """forked=True: fresh child under RLIMIT_CPU/RLIMIT_AS (the deciding run for limit hits and for
     every reported failure); otherwise in this process with a soft CPU-budget timer (forking is the
     scarce resource on this machine: forked children are serialized by the hypervisor)"""
@@ -104,10 +165,10 @@ def run_doc(doc, argv, cpu, fault=None, forked=False):
     if forked or pipeline.ISOLATED:
         if fault is None:
             return hermetic.call(hermetic.gasol_main, full, inputs, [docrun.OUT], cpu=cpu, mem_gb=4)
-        return hermetic.call(run_with_fault, full, inputs, [docrun.OUT], fault, cpu=cpu, mem_gb=4)
+        return hermetic.call(run_with_fault, full, inputs, [docrun.OUT], fault, site, nth, cpu=cpu, mem_gb=4)
     if fault is None:
         return hermetic.local(hermetic.gasol_main, full, inputs, [docrun.OUT], timeout=cpu)
-    return hermetic.local(run_with_fault, full, inputs, [docrun.OUT], fault, timeout=cpu)
+    return hermetic.local(run_with_fault, full, inputs, [docrun.OUT], fault, site, nth, timeout=cpu)
 
 
 def innermost_repo_frame(exc):
@@ -184,24 +245,32 @@ def check_document(blocks, argv, stats, label, with_fault=None):
         return fails
     # containment by fault injection on runtime block number with_fault
     out_ok = json.loads(r.value["files"][docrun.OUT])
+    if isinstance(with_fault, (list, tuple)):
+        with_fault, site, nth = with_fault
+    else:
+        site, nth = 0, 1
+    site %= len(FAULT_SITES)
     k = with_fault % max(1, len(asm.split_blocks(docs.stream(blocks))))
     fname = "C_run_code_of_0_block_%d" % k
-    rf = run_doc(doc, argv, cpu, fault=fname)
+    rf = run_doc(doc, argv, cpu, fault=fname, site=site, nth=nth)
     stats.evaluations += 1
     stats.classes["fault injected"] += 1
     bad = classify_run(rf)
     if bad:
-        rf = run_doc(doc, argv, cpu, fault=fname, forked=True)
+        rf = run_doc(doc, argv, cpu, fault=fname, forked=True, site=site, nth=nth)
         bad = classify_run(rf)
-    fcase = dict(case, fault=k)
+    fcase = dict(case, fault=[k, site, nth], fault_site="%s.%s" % FAULT_SITES[site])
     if bad and bad[0] == "inconclusive":
         stats.inconclusive += 1
         stats.classes["inconclusive: wall-clock watchdog before the CPU budget was used"] += 1
         return fails
     if bad:
         kind, cul, detail = bad
-        fails.append(runner.Failure("fault-not-contained", kind, "[%s] analysis of block %s made to fail: %s" % (lab, fname, detail), fcase))
+        fails.append(runner.Failure("fault-not-contained", kind, "[%s] %s made to fail (call %d) while block %s is processed: %s" % (
+            lab, fcase["fault_site"], nth, fname, detail), fcase))
         return fails
+    if rf.value.get("fault_hits"):
+        stats.classes["fault hit in " + FAULT_SITES[site][0].split(".")[0]] += 1
     if not rf.value.get("fault_hits"):
         stats.classes["fault block had nothing to optimize"] += 1
         return fails
@@ -217,10 +286,22 @@ def check_document(blocks, argv, stats, label, with_fault=None):
         bi, bf, bo = norm_push0(bi), norm_push0(bf), norm_push0(bo)
         is_fault = where.endswith(".data/0/.code #%d" % k)
         if is_fault:
-            if bf != bi:
-                fails.append(runner.Failure("fault-not-contained", "faulty-block-changed", "[%s] the block whose analysis failed was not emitted unchanged" % lab, fcase))
+            # a failure in the search / rebuild / re-verification of one sub-block may leave the other sub-blocks of the
+            # block optimized; only a failing analysis (which works on the whole block) must leave it untouched
+            # unchanged (the failure made the block impossible), or exactly the fault-free result (the tool absorbed the
+            # failure at a finer grain and finished the analysis); anything else must at least be equivalent to the input
+            if bf != bi and bf != bo:
+                try:
+                    cmpb = pipeline.compare_blocks(asm.items_to_instrs(bi), asm.items_to_instrs(bf), random.Random(k), n_states=24)
+                except Exception:
+                    cmpb = {"status": "ok"}
+                if cmpb["status"] in ("differ", "underflow") and "memory domain" not in str(cmpb.get("reason")):
+                    fails.append(runner.Failure("fault-not-contained", "faulty-block-miscompiled", "[%s] after a failure in %s the block was emitted as `%s`, "
+                                                "which is not equivalent to its input: %s" % (lab, fcase["fault_site"], asm.instrs_to_plain(asm.items_to_instrs(bf))[:200], cmpb.get("reason")), fcase))
+                else:
+                    stats.classes["faulty block partly optimized (equivalent to its input)"] += 1
         elif bf != bo:
-            fails.append(runner.Failure("fault-not-contained", "other-block-affected", "[%s] %s differs from the fault-free run although the fault was injected in block %d" % (lab, where, k), fcase))
+            fails.append(runner.Failure("fault-not-contained", "other-block-affected", "[%s] %s differs from the fault-free run although the fault (%s, call %d) was injected in block %d" % (lab, where, fcase["fault_site"], nth, k), fcase))
     return fails
 
 
@@ -232,14 +313,16 @@ def shard_random(n, sd):
     @settings(max_examples=n, database=None, deadline=None, phases=(Phase.generate,),
               suppress_health_check=list(HealthCheck), report_multiple_bugs=False)
     @given(st.lists(hostile_block(), min_size=3, max_size=6), options.pipeline_options([options.GREEDY] * 15 + [options.UBG_Z3]),
-           st.integers(0, 40), options.encoder_options())
-    def prop(blocks, argv, fault, enc):
+           st.integers(0, 40), options.encoder_options(), st.integers(0, 10 ** 6))
+    def prop(blocks, argv, fault, enc, fs):
         solver = "-solver" in argv
         if solver:
             blocks = [b[:18] for b in blocks[:3]]     # solver runs are 20-50x dearer; results depend on its time-outs
             argv = argv + enc                         # Max-SMT runs also vary the encoder options
         # the containment comparison needs a deterministic back-end, so faults are only injected under -greedy
-        for f in check_document(blocks, argv, stats, "random", with_fault=(fault if fault < 6 and not solver else None)):
+        frng = random.Random(fs)
+        wf = [fault, frng.choice([0, 0] + list(range(len(FAULT_SITES)))), frng.choice([1, 1, 1, 2, 3, 6])] if fault < 9 and not solver else None
+        for f in check_document(blocks, argv, stats, "random", with_fault=wf):
             stats.fail(f)
     prop()
     return stats
